@@ -124,7 +124,11 @@ class Atomizer:
                 pass
         elif base.op == "atan":
             x = self.rw(base.args[0])
-            self.axioms += [T.lt(T.ZERO, full[0]), T.eq(full[1], T.mul(x, full[0]))]
+            if len(base.args) == 2:
+                dd = self.rw(base.args[1])
+                self.axioms += [T.lt(T.ZERO, full[0]), T.eq(T.mul(full[1], dd), T.mul(x, full[0]))]
+            else:
+                self.axioms += [T.lt(T.ZERO, full[0]), T.eq(full[1], T.mul(x, full[0]))]
             cl = self.rw(self.pi_const(Fraction(1, 2 * L))[0])
             self.axioms.append(T.lt(cl, c))
         elif base.op == "acos":
@@ -167,11 +171,23 @@ class Atomizer:
         r = self.rwmemo.get(t.id)
         if r is not None:
             return r
-        # iterative post-order to avoid recursion depth problems on long chains
-        for u in T.subterms([t]):
+        # iterative post-order (no recursion depth problems on long chains).  The bases of trig/hyp atoms are not
+        # visited here: they are rewritten on demand by trig_base/hyp_base, so that an angle that is only ever used
+        # inside cos/sin does not get a "plain real" variable with its own axioms
+        stack = [(t, False)]
+        while stack:
+            u, done = stack.pop()
             if u.id in self.rwmemo:
                 continue
-            self.rwmemo[u.id] = self._rw1(u)
+            if done:
+                self.rwmemo[u.id] = self._rw1(u)
+                continue
+            stack.append((u, True))
+            if u.op in ("trig", "hyp"):
+                continue
+            for a in u.args:
+                if a.id not in self.rwmemo:
+                    stack.append((a, False))
         return self.rwmemo[t.id]
 
     def _rw1(self, t):
@@ -244,7 +260,7 @@ class Atomizer:
                                     T.eq(T.eq(v, T.ZERO), T.and_(T.eq(y, T.ZERO), T.le(T.ZERO, x))),
                                     T.eq(T.lt(T.ZERO, v), T.or_(T.lt(T.ZERO, y), T.and_(T.eq(y, T.ZERO), T.lt(x, T.ZERO))))]
                 elif op in ("atan", "asinh", "asin"):
-                    x = a[0]
+                    x = a[0] if len(a) == 1 else T.mul(a[0], a[1])      # sign(n/d) = sign(n*d)
                     self.axioms += [T.eq(T.eq(v, T.ZERO), T.eq(x, T.ZERO)), T.eq(T.lt(T.ZERO, v), T.lt(T.ZERO, x))]
                     if op in ("atan", "asin"):
                         h = T.scale(Fraction(1, 2), T.PI)
@@ -275,23 +291,41 @@ class Atomizer:
         raise NotImplementedError(op)
 
     def _congruence(self):
-        """functional consistency for atoms over opaque (non-variable) bases: equal arguments, equal values;
-        also for two variables that both occur as plain reals (they may be equated by a path condition)"""
+        """functional consistency for atoms: equal arguments, equal values.
+        * two variables: only if both also occur as plain reals (a path condition may equate them)
+        * variable vs algebraic (polynomial) base: only if the variable occurs plain
+        * two algebraic bases: always (compared as polynomials; quotients by cross-multiplication)
+        * two inverse-function bases (atan, atan2, asinh, ...) of the same kind: compared through their ARGUMENTS
+        * inverse-function base vs anything else: only if it already occurs as a plain real"""
         fv = {v.id for v in T.free_vars(self.out + self.axioms)}
+        inv_ops = ("atan2", "atan", "asinh", "acosh", "acos", "asin", "log")
         for tab, Ls in ((self.trig_vars, self.trigL), (self.hyp_vars, self.hypL)):
             ids = [i for i in tab if i in self.base_terms]
             for x in range(len(ids)):
                 for y in range(x + 1, len(ids)):
                     i, j = ids[x], ids[y]
                     bi, bj = self.base_terms[i], self.base_terms[j]
-                    if bi.op == "var" and bj.op == "var" and not (bi.id in fv and bj.id in fv):
-                        continue
+                    Li, Lj = Ls.get(i, 1), Ls.get(j, 1)
                     if bi.op == "const" and bj.op == "const":
                         continue
-                    Li, Lj = Ls.get(i, 1), Ls.get(j, 1)
+                    vi, vj = bi.op == "var", bj.op == "var"
+                    ii, ij = bi.op in inv_ops, bj.op in inv_ops
+                    if vi and vj and not (bi.id in fv and bj.id in fv):
+                        continue
+                    if (vi and not vj and bi.id not in fv) or (vj and not vi and bj.id not in fv):
+                        continue
+                    if ii and ij:
+                        if bi.op != bj.op or len(bi.args) != len(bj.args) or Li != Lj:
+                            continue
+                        if bi.op == "atan" and len(bi.args) == 2:
+                            cond = T.eq(T.mul(self.rw(bi.args[0]), self.rw(bj.args[1])), T.mul(self.rw(bj.args[0]), self.rw(bi.args[1])))
+                        else:
+                            cond = T.and_(*[T.eq(self.rw(p), self.rw(q)) for p, q in zip(bi.args, bj.args)])
+                        self.axioms.append(T.implies(cond, T.and_(T.eq(tab[i][0], tab[j][0]), T.eq(tab[i][1], tab[j][1]))))
+                        continue
+                    if (ii and bi.id not in self.plain_atom_vars) or (ij and bj.id not in self.plain_atom_vars):
+                        continue
                     if bi.op == "quot" or bj.op == "quot":
-                        # compare quotients by cross-multiplication (denominators are asserted non-zero): this spares
-                        # the solver the detour through the auxiliary quotient variables
                         ni, di = (bi.args if bi.op == "quot" else (bi, T.ONE))
                         nj, dj = (bj.args if bj.op == "quot" else (bj, T.ONE))
                         ri = T.scale(Lj, T.mul(self.rw(ni), self.rw(dj)))
